@@ -28,6 +28,11 @@
    one transformation T, and Expected(g, T, flags) is the documented rule
    table of expr.Hash.  ModelHash is the *design* of the algorithm, structured
    like expr/hasher.go; HashIffEqual says the design implements the table.
+   Besides the transformations that change one feature of one node there are
+   three that change the SHARING structure (which references lead to the very
+   same user type): unshare, redir, hollow.  For those the table is read as the
+   recursive definition it is (Cmp): the old and the new target of the one
+   reference that moved are compared rule by rule.
 
    The heap form of a graph (for Dup and mutations) keeps the slice-valued
    parts of an attribute (meta values, required names, enum values) the way Go
@@ -45,14 +50,20 @@ CONSTANTS Deviations,   \* named departures of the code from the design
           Modes,        \* subset of {"hash", "dup"}
           Decos,        \* hash mode: 0 = no tags, 1 = every object/user attribute carries both tags;
                         \* dup mode: every attribute has that many values under meta "doc:k" and that many required names
+          Shapes,       \* "any": every graph; "shared": only graphs in which a non-recursive user type is referenced from two places
+          Ops,          \* hash mode: "all" transformations, or only those of "sharing" (SharingOps)
           MaxSteps,     \* length of mutation scripts
           Script        \* "free": any steps; "paired": any first step, then the same append-like change at the same
                         \* place on the other side; "copyfirst": like paired, first step on the copy
 
-AllDeviations == {"hash.union_order_dependent", "hash.meta_iteration_order", "dup.meta_values_shared",
+AllDeviations == {"hash.union_order_dependent", "hash.meta_iteration_order", "hash.recursive_reference_is_prefix",
+                  "dup.meta_values_shared",
                   "dup.enum_values_shared",
                   \* hypothetical (vacuity guards of the in-place write steps):
-                  "dup.meta_backing_array_shared", "dup.required_backing_array_shared"}
+                  "dup.meta_backing_array_shared", "dup.required_backing_array_shared",
+                  \* hypothetical (vacuity guard of the sharing transformations): an object met again, in whatever way,
+                  \* hashes as "_o_" - the second reference to a user type looks like a type without attributes
+                  "hash.memo_hit_is_empty_object"}
 ASSUME Deviations \subseteq AllDeviations
 
 Range(s) == {s[i] : i \in 1..Len(s)}
@@ -103,13 +114,21 @@ Succ(g, i) == IF g.nodes[i].kind = "object" THEN {} ELSE NodeRefs(g.nodes[i])
 RECURSIVE ReachK(_, _, _)
 ReachK(g, S, k) == IF k = 0 THEN S ELSE ReachK(g, S \cup UNION {Succ(g, i) : i \in S}, k - 1)
 EveryCycleHasAnObject(g) == \A i \in 1..Len(g.nodes) : i \notin ReachK(g, Succ(g, i), Len(g.nodes))
+\* node i lies on a cycle (is recursive)
+RECURSIVE ReachAllK(_, _, _)
+ReachAllK(g, S, k) == IF k = 0 THEN S ELSE ReachAllK(g, S \cup UNION {NodeRefs(g.nodes[i]) : i \in S}, k - 1)
+OnCycle(g, i) == i \in ReachAllK(g, NodeRefs(g.nodes[i]), Len(g.nodes))
+\* the references (node, attribute index) that lead to node u; DAG sharing: a user type that is not recursive
+\* and is referenced from two places
+RefsTo(g, u) == UNION {{<<i, k>> : k \in {k \in 1..Len(g.nodes[i].attrs) : g.nodes[i].attrs[k].ref.n = u}} : i \in 1..Len(g.nodes)}
+SharedUsers(g) == {u \in 1..Len(g.nodes) : IsUser(g.nodes[u]) /\ ~OnCycle(g, u) /\ Cardinality(RefsTo(g, u)) >= 2}
 
 Graphs == {g \in {[root |-> t.ref, nodes |-> t.nodes] : t \in {t \in Gen(1, N, {}) : t.ref.n # 0}} : EveryCycleHasAnObject(g)}
 
 ---------------------------------------------------------------------------
 (* The design of expr.Hash.  A hash is a sequence of string tokens; st threads
-   the memo (object node -> the hash built so far, exactly like the *string in
-   the code: a recursive occurrence sees the partial value) and a visit counter. *)
+   the memo (object node -> its hash, like the *string in the code) and a visit
+   counter, and carries the objects that are being hashed (see H). *)
 FlagAt(i) == [fields |-> ((i - 1) \div 4) % 2 = 1, names |-> ((i - 1) \div 2) % 2 = 1, tags |-> (i - 1) % 2 = 1]
 EqualFlags == 4      \* expr.Equal = Hash(., false, true, true)
 
@@ -145,36 +164,58 @@ LeafHash(p, f) ==
 \* singleton set evaluates it once
 Bind(v, F(_)) == CHOOSE y \in {F(x) : x \in {v}} : TRUE
 
-RECURSIVE H(_, _, _, _, _), HSeq(_, _, _, _, _, _, _)
+\* st = [seen, c, open, pre, hit]: seen = the memo (object node -> its hash; for an object still being hashed the
+\* part built so far), c = visit counter, open = the objects being hashed, outermost first, pre = the deviation
+\* hash.recursive_reference_is_prefix, hit = the (hypothetical) deviation hash.memo_hit_is_empty_object.  A reference back to an object that is still being hashed says which of
+\* the enclosing objects it means (0 = the innermost): a token no finished object can produce.  The hash of an
+\* object that contains such a reference to an object *outside* itself depends on where the object is met, so it
+\* is not kept in the memo (`low` of a result = the outermost open object referred to from inside, Inf = none).
+\* The code as it is returns the memo entry for a reference back - whatever part of that object had been written
+\* so far, "_o_" alone for the first attribute -, which is also the hash of another, finite type.
+Inf == 99
+Min2(a, b) == IF a < b THEN a ELSE b
+PosIn(open, n) == CHOOSE i \in 1..Len(open) : open[i] = n
+RECURSIVE H(_, _, _, _, _), HSeq(_, _, _, _, _, _, _, _)
 H(g, r, f, to, st) ==
-  IF r.n = 0 THEN [h |-> LeafHash(r.p, f), seen |-> st.seen, c |-> st.c + 1]
+  IF r.n = 0 THEN [h |-> LeafHash(r.p, f), seen |-> st.seen, c |-> st.c + 1, low |-> Inf]
   ELSE
   LET nd == g.nodes[r.n]
-      st1 == [seen |-> st.seen, c |-> st.c + 1]
+      st1 == [st EXCEPT !.c = @ + 1]
+      in(e) == [st EXCEPT !.seen = e.seen, !.c = e.c]       \* the state after a sibling has been hashed
+      d == Len(st.open) + 1                                   \* position of this object among the open ones
   IN CASE nd.kind = "array" ->
             Bind(H(g, nd.attrs[1].ref, f, to, st1), LAMBDA e : [e EXCEPT !.h = <<"_a_">> \o e.h])
        [] nd.kind = "map" ->
             Bind(H(g, nd.attrs[1].ref, f, to, st1), LAMBDA k :
-              Bind(H(g, nd.attrs[2].ref, f, to, [seen |-> k.seen, c |-> k.c]), LAMBDA e :
-                [e EXCEPT !.h = <<"_m_">> \o k.h \o <<":">> \o e.h]))
+              Bind(H(g, nd.attrs[2].ref, f, to, in(k)), LAMBDA e :
+                [e EXCEPT !.h = <<"_m_">> \o k.h \o <<":">> \o e.h, !.low = Min2(k.low, e.low)]))
        [] nd.kind = "union" ->
-            HSeq(g, nd.attrs, 1, f, to, 0, [h |-> <<"_u_", nd.name>>, seen |-> st1.seen, c |-> st1.c])
+            HSeq(g, nd.attrs, 1, f, to, 0, [h |-> <<"_u_", nd.name>>, seen |-> st1.seen, c |-> st1.c, low |-> Inf], st)
        [] IsUser(nd) ->
             LET nm == IF ~f.names \/ f.fields THEN <<nd.name>> ELSE <<>> IN
-            IF f.fields THEN [h |-> <<"_t_">> \o nm, seen |-> st1.seen, c |-> st1.c]
+            IF f.fields THEN [h |-> <<"_t_">> \o nm, seen |-> st1.seen, c |-> st1.c, low |-> Inf]
             ELSE Bind(H(g, nd.attrs[1].ref, f, to, st1), LAMBDA e :
                    [e EXCEPT !.h = <<"_t_">> \o nm \o TagToks(nd.attrs[1], f, to) \o <<"!">> \o e.h])
        [] nd.kind = "object" ->
-            IF r.n \in DOMAIN st.seen THEN [h |-> st.seen[r.n], seen |-> st.seen, c |-> st.c + 1]
-            ELSE HSeq(g, nd.attrs, 1, f, to, r.n, [h |-> <<"_o_">>, seen |-> (r.n :> <<"_o_">>) @@ st1.seen, c |-> st1.c])
-\* the attributes of object `self` (self = 0: the alternatives of a union), one after the other
-HSeq(g, as, i, f, to, self, acc) ==
+            IF r.n \in Range(st.open) /\ ~st.pre
+            THEN [h |-> <<"_r_", ToString(Len(st.open) - PosIn(st.open, r.n))>>, seen |-> st.seen, c |-> st.c + 1,
+                  low |-> PosIn(st.open, r.n)]
+            ELSE IF r.n \in DOMAIN st.seen
+                 THEN [h |-> IF st.hit THEN <<"_o_">> ELSE st.seen[r.n], seen |-> st.seen, c |-> st.c + 1, low |-> Inf]
+            ELSE Bind(HSeq(g, nd.attrs, 1, f, to, r.n,
+                           [h |-> <<"_o_">>, seen |-> (r.n :> <<"_o_">>) @@ st1.seen, c |-> st1.c, low |-> Inf],
+                           [st EXCEPT !.open = Append(@, r.n)]), LAMBDA e :
+                   IF st.pre \/ e.low >= d THEN [e EXCEPT !.low = Inf]
+                   ELSE [e EXCEPT !.seen = [k \in DOMAIN e.seen \ {r.n} |-> e.seen[k]]])
+\* the attributes of object `self` (self = 0: the alternatives of a union), one after the other; ctx = the state
+\* the attributes are hashed in (its open objects)
+HSeq(g, as, i, f, to, self, acc, ctx) ==
   IF i > Len(as) THEN acc ELSE
-  Bind(H(g, as[i].ref, f, to, [seen |-> acc.seen, c |-> acc.c]), LAMBDA e :
+  Bind(H(g, as[i].ref, f, to, [ctx EXCEPT !.seen = acc.seen, !.c = acc.c]), LAMBDA e :
     Bind(IF self = 0 THEN acc.h \o <<"_*_", as[i].name, "_|_">> \o e.h
          ELSE acc.h \o <<"-", as[i].name, "/">> \o e.h \o TagToks(as[i], f, to), LAMBDA nh :
       HSeq(g, as, i + 1, f, to, self,
-           [h |-> nh, seen |-> IF self # 0 THEN (self :> nh) @@ e.seen ELSE e.seen, c |-> e.c])))
+           [h |-> nh, seen |-> IF self # 0 THEN (self :> nh) @@ e.seen ELSE e.seen, c |-> e.c, low |-> Min2(acc.low, e.low)], ctx)))
 
 \* hashObject and hashUnion first order the attributes by name; done once per graph here
 Ordered(g, devs) ==
@@ -182,13 +223,15 @@ Ordered(g, devs) ==
      IF g.nodes[i].kind = "object" THEN [g.nodes[i] EXCEPT !.attrs = SortByName(@)]
      ELSE IF g.nodes[i].kind = "union" THEN [g.nodes[i] EXCEPT !.attrs = UnionOrder(@, devs)]
      ELSE g.nodes[i]]]
-HashRunO(og, fi, o, devs) == H(og, og.root, FlagAt(fi), TagOrder(o, devs), [seen |-> <<>>, c |-> 0])
+HashRunO(og, fi, o, devs) == H(og, og.root, FlagAt(fi), TagOrder(o, devs),
+                                [seen |-> <<>>, c |-> 0, open |-> <<>>, pre |-> "hash.recursive_reference_is_prefix" \in devs,
+                                 hit |-> "hash.memo_hit_is_empty_object" \in devs])
 HashRun(g, fi, o, devs) == HashRunO(Ordered(g, devs), fi, o, devs)
 ModelHash(g, fi, o, devs) == HashRun(g, fi, o, devs).h
 
 ---------------------------------------------------------------------------
 (* Transformations and the documented rule table. *)
-T0(op, nd, ix) == [op |-> op, node |-> nd, idx |-> ix, perm |-> <<>>, tags |-> NoTags]
+T0(op, nd, ix) == [op |-> op, node |-> nd, idx |-> ix, perm |-> <<>>, tags |-> NoTags, to |-> 0]
 Perms(n) == {p \in [1..n -> 1..n] : \A i, j \in 1..n : i # j => p[i] # p[j]}
 Ident(n) == [i \in 1..n |-> i]
 HasName(nd, s) == \E k \in 1..Len(nd.attrs) : nd.attrs[k].name = s
@@ -196,6 +239,14 @@ TagTargets == {[name |-> 0, type |-> 0], [name |-> 1, type |-> 0], [name |-> 0, 
                [name |-> 1, type |-> 1], [name |-> 2, type |-> 1]}
 IrrelevantOps == {"copy", "copyatt", "perm", "rev", "desc", "val", "req", "meta", "deco"}
 StructuralOps == {"ren", "add", "del", "prim", "flip"}
+\* one reference to a user type is moved to another user type; everything else stays as it is:
+\*   unshare  a user type referenced from two places (and not recursive): this reference gets a type of its own,
+\*            "Z", with the same definition (anonymous structure copied, user types below stay shared)
+\*   redir    the reference goes to another user type of the graph (two identical types merged into one shared
+\*            node when the two are structurally equal - the inverse of unshare -, a different type otherwise;
+\*            recursive types included: the reference may open or close a cycle)
+\*   hollow   the reference goes to a new user type "Z" whose definition is an object without attributes
+SharingOps == {"unshare", "redir", "hollow"}
 
 \* reachable node ids, in preorder
 RECURSIVE Ord(_, _, _), OrdSeq(_, _, _, _)
@@ -206,6 +257,8 @@ Transforms(g, fine) ==
   LET NN == 1..Len(g.nodes)
       nd(i) == g.nodes[i]
       Locs == UNION {{<<i, k>> : k \in 1..Len(nd(i).attrs)} : i \in NN}
+      tgt(l) == nd(l[1]).attrs[l[2]].ref.n
+      ULocs == {l \in Locs : tgt(l) # 0 /\ IsUser(nd(tgt(l)))}       \* the references to user types
   IN {T0("copy", 0, 0), T0("copyatt", 0, 0)}
      \cup UNION {{[T0("perm", i, 0) EXCEPT !.perm = p] : p \in Perms(Len(nd(i).attrs)) \ {Ident(Len(nd(i).attrs))}}
                    : i \in {i \in NN : IsNamed(nd(i)) /\ Len(nd(i).attrs) >= 2}}
@@ -219,6 +272,12 @@ Transforms(g, fine) ==
      \cup {T0("del", l[1], l[2]) : l \in {l \in Locs : nd(l[1]).kind = "object" \/ (nd(l[1]).kind = "union" /\ Len(nd(l[1]).attrs) >= 2)}}
      \cup {T0("prim", l[1], l[2]) : l \in {l \in Locs : nd(l[1]).attrs[l[2]].ref.n = 0 /\ nd(l[1]).attrs[l[2]].ref.p # "Empty"}}
      \cup {T0("flip", i, 0) : i \in {i \in NN : nd(i).kind \in {"array", "map"}}}
+     \cup {T0("unshare", l[1], l[2]) : l \in {l \in ULocs : tgt(l) \in SharedUsers(g)}}
+     \cup {T0("hollow", l[1], l[2]) : l \in ULocs}
+     \cup UNION {{[T0("redir", l[1], l[2]) EXCEPT !.to = j]
+                    : j \in {j \in NN \ {tgt(l)} : /\ nd(j).kind = nd(tgt(l)).kind
+                                                   /\ EveryCycleHasAnObject([g EXCEPT !.nodes[l[1]].attrs[l[2]].ref = R(j)])}}
+                   : l \in ULocs}
 
 Deco(a, op) ==
   [a EXCEPT !.desc = IF op \in {"desc", "deco"} THEN 7 ELSE @,
@@ -227,9 +286,32 @@ Deco(a, op) ==
             !.meta = IF op \in {"meta", "deco"} THEN Append(@, 7) ELSE @]
 RemoveAt(s, k) == SubSeq(s, 1, k - 1) \o SubSeq(s, k + 1, Len(s))
 
+\* a copy of the anonymous structure below r (arrays, maps, objects, unions are never shared: each gets a new
+\* node at the end; leaves and user types stay what they are)
+RECURSIVE CopyAnon(_, _), CopyAnonAs(_, _, _, _)
+CopyAnon(nodes, r) ==
+  IF r.n = 0 \/ IsUser(nodes[r.n]) THEN [nodes |-> nodes, ref |-> r]
+  ELSE LET id == Len(nodes) + 1
+           res == CopyAnonAs(Append(nodes, [nodes[r.n] EXCEPT !.attrs = <<>>]), nodes[r.n].attrs, 1, <<>>)
+       IN [nodes |-> [res.nodes EXCEPT ![id].attrs = res.attrs], ref |-> R(id)]
+CopyAnonAs(nodes, as, i, out) ==
+  IF i > Len(as) THEN [nodes |-> nodes, attrs |-> out]
+  ELSE LET c == CopyAnon(nodes, as[i].ref) IN CopyAnonAs(c.nodes, as, i + 1, Append(out, [as[i] EXCEPT !.ref = c.ref]))
+
 ApplyT(g, t) ==
-  LET nd == g.nodes[t.node] IN
+  LET nd == g.nodes[t.node]
+      u == nd.attrs[t.idx].ref.n            \* sharing operations: the user type the reference leads to now
+      id == Len(g.nodes) + 1
+  IN
   CASE t.op \in {"copy", "copyatt"} -> g
+    [] t.op = "unshare" ->
+         LET c == CopyAnon(Append(g.nodes, [g.nodes[u] EXCEPT !.name = "Z", !.attrs = <<>>]), g.nodes[u].attrs[1].ref)
+         IN [g EXCEPT !.nodes = [c.nodes EXCEPT ![id].attrs = <<[g.nodes[u].attrs[1] EXCEPT !.ref = c.ref]>>,
+                                                ![t.node].attrs[t.idx].ref = R(id)]]
+    [] t.op = "hollow" ->
+         [g EXCEPT !.nodes = [g.nodes \o <<Nd(g.nodes[u].kind, "Z", <<[g.nodes[u].attrs[1] EXCEPT !.ref = R(id + 1)]>>), Nd("object", "", <<>>)>>
+                                EXCEPT ![t.node].attrs[t.idx].ref = R(id)]]
+    [] t.op = "redir" -> [g EXCEPT !.nodes[t.node].attrs[t.idx].ref = R(t.to)]
     [] t.op = "perm" -> [g EXCEPT !.nodes[t.node].attrs = [i \in 1..Len(nd.attrs) |-> nd.attrs[t.perm[i]]]]
     [] t.op = "rev" -> [g EXCEPT !.nodes = [i \in 1..Len(g.nodes) |->
                           IF IsNamed(g.nodes[i]) THEN [g.nodes[i] EXCEPT !.attrs = [k \in 1..Len(@) |-> @[Len(@) + 1 - k]]] ELSE g.nodes[i]]]
@@ -251,15 +333,64 @@ Visited(g, f) ==
       Cl(S, k) == IF k = 0 THEN S ELSE Cl(S \cup UNION {Exp(i) : i \in S}, k - 1)
   IN Cl({g.root.n}, Len(g.nodes))
 
-\* documented rules of expr.Hash: TRUE = same hash
-Expected(g, t, fi, visited) ==
+\* The documented rules read as the recursive definition they are, for a reference r1 into g1 (the graph as it
+\* was) and a reference r2 into g2 (the transformed graph; nodes 1..Len(g1.nodes) are those of g1, and only the
+\* one attribute of node `hold` that was redirected differs): "eq" same hash, "ne" different hashes, "na" the
+\* documentation does not say.  A rule that says "different" decides.  "na":
+\*   - a user type against a result type; different struct:field tags on the two types' own attributes; two
+\*     unions with different names (the rules do not mention unions; their names are part of the hash whatever
+\*     the flags);
+\*   - two different types of which one is recursive, and no rule told them apart: whether a recursive type and
+\*     an unrolling of it are "the same" is not defined (only a difference is);
+\*   - the comparison has not come to an end after `fuel` levels.
+\* The same node on both sides is the same type as long as the redirected attribute cannot be reached from it.
+EmptyObj == [p |-> "{}", n |-> 0]        \* the definition of the built-in user type Empty
+NodeOf(gg, r) ==
+  IF r.n # 0 THEN gg.nodes[r.n]
+  ELSE IF r.p = "Empty" THEN Nd("user", "Empty", <<A("", EmptyObj)>>)
+  ELSE IF r = EmptyObj THEN Nd("object", "", <<>>)
+  ELSE Nd("leaf", r.p, <<>>)
+NameSet(nd) == {nd.attrs[k].name : k \in 1..Len(nd.attrs)}
+AttrBy(nd, s) == nd.attrs[CHOOSE k \in 1..Len(nd.attrs) : nd.attrs[k].name = s]
+Worst(S) == IF "ne" \in S THEN "ne" ELSE IF "na" \in S THEN "na" ELSE "eq"
+Reaches(gg, i, j) == i = j \/ j \in ReachAllK(gg, NodeRefs(gg.nodes[i]), Len(gg.nodes))
+RECURSIVE Cmp(_, _, _, _, _, _, _)
+Cmp(g1, r1, g2, r2, f, hold, fuel) ==
+  IF r1 = r2 /\ (r1.n = 0 \/ ~Reaches(g1, r1.n, hold)) THEN "eq" ELSE IF fuel = 0 THEN "na" ELSE
+  LET n1 == NodeOf(g1, r1)
+      n2 == NodeOf(g2, r2)
+      sub(a1, a2) == Cmp(g1, a1.ref, g2, a2.ref, f, hold, fuel - 1)
+      rec == (r1.n # 0 /\ OnCycle(g1, r1.n)) \/ (r2.n # 0 /\ OnCycle(g2, r2.n))
+      v == IF n1.kind # n2.kind THEN (IF IsUser(n1) /\ IsUser(n2) THEN "na" ELSE "ne")
+           ELSE CASE n1.kind = "leaf" -> IF n1.name = n2.name THEN "eq" ELSE "ne"
+                  [] n1.kind = "array" -> sub(n1.attrs[1], n2.attrs[1])
+                  [] n1.kind = "map" -> Worst({sub(n1.attrs[1], n2.attrs[1]), sub(n1.attrs[2], n2.attrs[2])})
+                  [] IsNamed(n1) ->
+                       IF n1.kind = "union" /\ n1.name # n2.name THEN "na"
+                       ELSE IF NameSet(n1) # NameSet(n2) THEN "ne"
+                       ELSE Worst({IF n1.kind = "object" /\ ~f.tags /\ AttrBy(n1, s).tags # AttrBy(n2, s).tags THEN "ne"
+                                   ELSE sub(AttrBy(n1, s), AttrBy(n2, s)) : s \in NameSet(n1)})
+                  [] IsUser(n1) ->
+                       IF (~f.names \/ f.fields) /\ n1.name # n2.name THEN "ne"
+                       ELSE IF f.fields THEN "eq"
+                       ELSE IF ~f.tags /\ n1.attrs[1].tags # n2.attrs[1].tags THEN "na"
+                       ELSE sub(n1.attrs[1], n2.attrs[1])
+  IN Bind(v, LAMBDA x : IF x = "eq" /\ rec THEN "na" ELSE x)
+
+\* documented rules of expr.Hash for g against tg = ApplyT(g, t): "eq" = same hash, "ne", "na" (see Cmp)
+Expected(g, tg, t, fi, visited) ==
   LET f == FlagAt(fi)
       vis == t.node \in visited
       inside == vis /\ ~(IsUser(g.nodes[t.node]) /\ f.fields)
-  IN CASE t.op \in IrrelevantOps -> TRUE
-       [] t.op = "uname" -> ~(vis /\ (~f.names \/ f.fields))
-       [] t.op = "tag" -> ~(inside /\ ~f.tags)
-       [] t.op \in StructuralOps -> ~inside
+      B(b) == IF b THEN "eq" ELSE "ne"
+  IN CASE t.op \in IrrelevantOps -> "eq"
+       [] t.op = "uname" -> B(~(vis /\ (~f.names \/ f.fields)))
+       [] t.op = "tag" -> B(~(inside /\ ~f.tags))
+       [] t.op \in StructuralOps -> B(~inside)
+       \* the one reference that moved is looked at or not; if it is, its old and its new target decide
+       [] t.op \in SharingOps ->
+            IF ~inside THEN "eq"
+            ELSE Cmp(g, g.nodes[t.node].attrs[t.idx].ref, tg, tg.nodes[t.node].attrs[t.idx].ref, f, t.node, Len(tg.nodes) + 2)
 
 HasTwoTags(g) == \E i \in 1..Len(g.nodes) : \E k \in 1..Len(g.nodes[i].attrs) :
                    g.nodes[i].attrs[k].tags.name # 0 /\ g.nodes[i].attrs[k].tags.type # 0
@@ -281,21 +412,29 @@ StableBits(g, runs) ==
   ELSE Bits([fi \in 1..8 |-> FlagAt(fi).tags \/ runs[fi].h = ModelHash(g, fi, 2, Deviations)])
 And8(x, y) == Bits([i \in 1..8 |-> (x \div 2 ^ (i - 1)) % 2 = 1 /\ (y \div 2 ^ (i - 1)) % 2 = 1])
 
+HasCycle(g) == \E i \in 1..Len(g.nodes) : OnCycle(g, i)
+RD == {"hash.recursive_reference_is_prefix"}
 \* everything the model says about one transformation of g (bit i-1 of a mask = flag combination i);
 \* cx = what depends on g alone: base = AllRuns(g, 1, Deviations), bst = StableBits(g, base),
-\* vis = the visited sets without / with ignoreFields, mu = MayBeUnstable per combination
+\* vis = the visited sets without / with ignoreFields, mu = MayBeUnstable per combination,
+\* rec = the runs under hash.recursive_reference_is_prefix when g is recursive (du, dr: what the hashes would
+\* answer under that one deviation, -1: the same as without it)
+\* (TLC evaluates a LET definition again at every use: what is used more than once is bound through Bind)
 Judge(g, t, cx) ==
-  LET tg == ApplyT(g, t)
-      runs == AllRuns(tg, 1, Deviations)
-      UD == {"hash.union_order_dependent"}
-      wide == HasWideUnion(g) \/ HasWideUnion(tg)
-  IN [t |-> t,
-      eq  |-> Bits([fi \in 1..8 |-> cx.base[fi].h = runs[fi].h]),
-      exp |-> Bits([fi \in 1..8 |-> Expected(g, t, fi, IF FlagAt(fi).fields THEN cx.vis[2] ELSE cx.vis[1])]),
-      st  |-> And8(cx.bst, StableBits(tg, runs)),
-      du  |-> IF wide THEN Bits([fi \in 1..8 |-> ModelHash(g, fi, 1, UD) = ModelHash(tg, fi, 1, UD)]) ELSE -1,
-      mu  |-> Bits([fi \in 1..8 |-> cx.mu[fi] \/ MayBeUnstable(tg, fi)]),
-      c   |-> runs[1].c]
+  Bind(ApplyT(g, t), LAMBDA tg :
+    Bind(AllRuns(tg, 1, Deviations), LAMBDA runs :
+      Bind([fi \in 1..8 |-> Expected(g, tg, t, fi, IF FlagAt(fi).fields THEN cx.vis[2] ELSE cx.vis[1])], LAMBDA ex :
+        LET UD == {"hash.union_order_dependent"}
+            wide == HasWideUnion(g) \/ HasWideUnion(tg)
+        IN [t |-> t,
+            eq  |-> Bits([fi \in 1..8 |-> cx.base[fi].h = runs[fi].h]),
+            exp |-> Bits([fi \in 1..8 |-> ex[fi] = "eq"]),
+            na  |-> Bits([fi \in 1..8 |-> ex[fi] = "na"]),
+            st  |-> And8(cx.bst, StableBits(tg, runs)),
+            du  |-> IF wide THEN Bits([fi \in 1..8 |-> ModelHash(g, fi, 1, UD) = ModelHash(tg, fi, 1, UD)]) ELSE -1,
+            dr  |-> IF cx.cyc \/ HasCycle(tg) THEN Bits([fi \in 1..8 |-> cx.rec[fi].h = ModelHash(tg, fi, 1, RD)]) ELSE -1,
+            mu  |-> Bits([fi \in 1..8 |-> cx.mu[fi] \/ MayBeUnstable(tg, fi)]),
+            c   |-> runs[1].c])))
 
 \* hash mode decoration: both tags on every object attribute and on every user type's own attribute
 WithTags(g, d) ==
@@ -507,17 +646,20 @@ Build ==
   /\ UNCHANGED <<mode, deco, pc, hp, ro, rc, script, unch, obs>>
 Built ==
   /\ pc = "build" /\ stack = <<>> /\ EveryCycleHasAnObject(g)
+  /\ Shapes = "shared" => SharedUsers(g) # {}
   /\ mode' \in Modes /\ deco' \in Decos /\ pc' = "start"
   /\ UNCHANGED <<g, stack, hp, ro, rc, script, unch, obs>>
 
 SetToSeq(S) == LET RECURSIVE f(_) f(T) == IF T = {} THEN <<>> ELSE LET x == CHOOSE x \in T : TRUE IN <<x>> \o f(T \ {x}) IN f(S)
+Cx(gg) ==
+  Bind(AllRuns(gg, 1, Deviations), LAMBDA base :
+    [base |-> base, bst |-> StableBits(gg, base),
+     vis |-> <<Visited(gg, FlagAt(1)), Visited(gg, FlagAt(5))>>,
+     mu |-> [fi \in 1..8 |-> MayBeUnstable(gg, fi)],
+     cyc |-> HasCycle(gg), rec |-> IF HasCycle(gg) THEN AllRuns(gg, 1, RD) ELSE base])
 HashObs(gg, fine) ==
-  LET ts == SetToSeq(Transforms(gg, fine))
-      base == AllRuns(gg, 1, Deviations)
-      cx == [base |-> base, bst |-> StableBits(gg, base),
-             vis |-> <<Visited(gg, FlagAt(1)), Visited(gg, FlagAt(5))>>,
-             mu |-> [fi \in 1..8 |-> MayBeUnstable(gg, fi)]]
-  IN [i \in 1..Len(ts) |-> Judge(gg, ts[i], cx)]
+  Bind(SetToSeq({t \in Transforms(gg, fine) : Ops = "sharing" => t.op \in SharingOps}), LAMBDA ts :
+    Bind(Cx(gg), LAMBDA cx : [i \in 1..Len(ts) |-> Judge(gg, ts[i], cx)]))
 
 DoHash == /\ pc = "start" /\ mode = "hash"
           /\ obs' = HashObs(WithTags(g, deco), FALSE)
@@ -551,7 +693,9 @@ Spec == Init /\ [][Next]_vars
 (* Properties. *)
 HashDone == pc = "done" /\ mode = "hash"
 \* same hash exactly when the documented rules say so, for all 8 flag combinations (Equal is combination 4)
-HashIffEqual == HashDone => \A i \in 1..Len(obs) : obs[i].eq = obs[i].exp
+\* (where the documentation does not say - bits of na - nothing is claimed)
+Without(x, m) == And8(x, 255 - m)
+HashIffEqual == HashDone => \A i \in 1..Len(obs) : Without(obs[i].eq, obs[i].na) = Without(obs[i].exp, obs[i].na)
 PermutationInvariant == HashDone => \A i \in 1..Len(obs) : obs[i].t.op \in {"perm", "rev"} => obs[i].eq = 255
 CopyHashEqual == HashDone => \A i \in 1..Len(obs) : obs[i].t.op \in {"copy", "copyatt"} => obs[i].eq = 255
 Stable == HashDone => \A i \in 1..Len(obs) : obs[i].st = 255
